@@ -50,6 +50,12 @@ def jobs(tier):
 def _state(inst):
     """observable + internal state as terms/objects for comparison"""
     d = dict(inst.__dict__)
+    for flag in ("_started", "_finished"):          # the flags may be properties: observe them through the attribute
+        if flag not in d:
+            try:
+                d[flag] = getattr(inst, flag)
+            except Exception:
+                pass
     return d
 
 
@@ -339,13 +345,14 @@ def oracle_step(cls, histories, pw, idA):
     pc = PEER[cls]
     for nm in ("Ed25519", "I1024", "toy11"):
         params = C.params_by_name(nm)
-        for ops in histories:
+        qq = C.group_order(params.group)
+        for ops, x0 in [(o, x_) for o in histories for x_ in (5, 0, 1, qq - 1)]:
             def mk(c, x):
                 e = C.entropy_for_scalar(params.group, x)
                 if c == "S":
                     return K[c](pw, idSymmetric=idA, params=params, entropy_f=e), e
                 return K[c](pw, idA=idA, idB=b"", params=params, entropy_f=e), e
-            inst, ent = mk(cls, 5)
+            inst, ent = mk(cls, x0)
             peer, _ = mk(pc, 7)
             pmsg = peer.start()
             state = (False, False, False)
@@ -384,7 +391,7 @@ def oracle_step(cls, histories, pw, idA):
                     op_spec = op
                 want, state = spec_step(state, op_spec)
                 if not _matches(got, want, cls, op_spec):
-                    return (True, "%s on %s: history %s step %d: automaton %s, implementation %s" % (cls, nm, ops, i, want, got))
+                    return (True, "%s on %s (secret scalar %d): history %s step %d: automaton %s, implementation %s" % (cls, nm, x0, ops, i, want, got))
                 draws = len(ent.calls) - n0
                 if draws != (1 if want == "msg" else 0):
                     return (True, "%s on %s: history %s step %d drew entropy %d times" % (cls, nm, ops, i, draws))
